@@ -66,6 +66,7 @@ var (
 	errAlreadyInPool    = errors.New("hash already in pool")
 	errInvalidChain     = errors.New("retrieved hash chain is invalid")
 	errCrossCheckFailed = errors.New("block cross-check failed")
+	errForgedBlock      = errors.New("delivered block does not match its hash")
 	errCancelHashFetch  = errors.New("hash fetching canceled (requested)")
 	errCancelBlockFetch = errors.New("block downloading canceled (requested)")
 	errNoSyncActive     = errors.New("no sync active")
@@ -614,6 +615,11 @@ func (d *Downloader) fetchBlocks(from uint64) error {
 				case errInvalidChain:
 					// The hash chain is invalid (blocks are not ordered properly), abort
 					return err
+
+				case errForgedBlock:
+					// The peer delivered something else under a requested hash, drop it; its hashes went back to the queue
+					log.Info("Removing peer", "peer-id", blockPack.peerId, "reason", err)
+					d.dropPeer(blockPack.peerId)
 
 				case errNoFetchesPending:
 					// Peer probably timed out with its delivery but came through
